@@ -71,9 +71,9 @@ func main() {
 	if r.ReplayArg != "" {
 		replay(r, t, d)
 	}
-	ip, dom, misc, mix := trafficFamilies()
-	all := unionRules(ip, dom, misc)
-	for _, a := range [][]vroute.Rule{ip, dom, misc, mix, all} {
+	ip, dom, misc, mix, emp := trafficFamilies()
+	all := unionRules(ip, dom, misc, emp)
+	for _, a := range [][]vroute.Rule{ip, dom, misc, mix, emp, all} {
 		checkDistinct("traffic", ruleTexts(a))
 	}
 	var rq, rp []string
@@ -109,6 +109,7 @@ func main() {
 		t.runSpace(3, "dom3", dom[:domCore], 3, 3, compact, false)
 		t.runSpace(4, "misc3", misc[:miscCore], 3, 3, compact, false)
 		t.runSpace(5, "mix3", mix, 3, 3, compact, false)
+		t.runSpace(6, "emp3", emp, 3, 3, compact, false)
 	} else {
 		t.runSpace(1, "all2", all, 2, 2, mapped, false)
 		t.runSpace(2, "ip3", ip, 3, 3, compact, false)
@@ -119,6 +120,8 @@ func main() {
 		t.runSpace(7, "dom4", dom[:domCore], 4, 4, compact, false)
 		t.runSpace(8, "misc4", misc[:miscCore], 4, 4, compact, false)
 		t.runSpace(9, "mix4", mix, 4, 4, compact, false)
+		t.runSpace(10, "emp3", emp, 3, 3, compact, false)
+		t.runSpace(11, "emp4", emp, 4, 4, compact, false)
 	}
 	r.Set("traffic_expected_decisions", t.outcomes.sorted())
 	r.Set("traffic_distinct_outcomes", len(t.outcomes.m))
@@ -161,6 +164,7 @@ func main() {
 			{"daedns-router lists", d.pRouter.lists.Load()}, {"daedns-router merged", d.pRouter.merged.Load()},
 			{"negated mergeable neighbours (traffic)", t.negMergeable.Load()}, {"negated mergeable neighbours (dns-request)", d.pReq.negMergeable.Load()},
 			{"negated mergeable neighbours (dns-response)", d.pResp.negMergeable.Load()},
+			{"empty expansion (traffic)", t.emptyExp.Load()}, {"empty expansion (dns-request)", d.pReq.emptyExp.Load()}, {"empty expansion (dns-response)", d.pResp.emptyExp.Load()},
 		} {
 			if x.v <= 0 {
 				fmt.Fprintf(os.Stderr, "C04: vacuous exploration: no case of kind %q\n", x.name)
@@ -168,12 +172,14 @@ func main() {
 			}
 		}
 	}
-	r.Rule("Rule LISTS are all sequences (with repetition) of the stated length over closed rule alphabets built around the optimizers' triggers. " +
-		"Traffic: full alphabet = union of three families (ip/sip: 25 rules, domain: 19, port/l4proto/pname/mac/ipversion/dscp: 22; 66 rules) - single-condition rules sharing function, negation and outbound; neighbours differing in exactly one of function name (dip/sip, dip/ip alias), '!', outbound (g1/g2) or outbound parameters (mark, must_, (must)); repeated and overlapping values; alias spellings dip/ip, dport/port, domain bare/domain:/suffix:, contains:/keyword:; same value under two keys; mixed-key domain(); v4/v6 values that re-sort; '&&' rules whose conditions re-sort by name; the same value in two conditions of one rule; must_rules; geoip:/geosite:/geosite@attr/ext: references alone, negated and mixed with ordinary values. " +
-		"quick: every list of length 1 and 2 over the full alphabet, every list of length 3 over each family core (16/12/12 rules) and over a 13-rule cross-family alphabet; thorough: length 1-2 over the full alphabet (IPv4 packets also in IPv4-mapped form), length 3 over each complete family and the cross-family alphabet, length 4 over the cores and the cross-family alphabet. " +
-		"DNS: request alphabet 25 rules (qname full/suffix/keyword/regex/geosite/ext, qtype by name and number, negated, multi-key, '&&'), response alphabet 26 rules (ip CIDR sets incl. v6-first, overlaps, geoip/ext; upstream; qname; qtype; '&&'); quick: length 1-2 over the full alphabets, length 3 over the cores (15/14); thorough: length 1-3 over the full alphabets, length 4 over the cores; the daedns router sees every request list of length<=3. " +
-		"Inputs: traffic - vroute.PacketsFor on the list as written with geodata references replaced by the listed values (full boundary product for length<=2, compact product = one inside + one outside neighbour per constant for length>=3); DNS request - 17 names (hits, misses, mixed case, trailing dot, root) x qtypes {A, AAAA, HTTPS}; DNS response - 4 questions x every answer section of <=2 records from a pool of 6 addresses x 3 answering upstreams. " +
-		"A case is (pipeline, list, input); lists are pairwise distinct (alphabets checked duplicate-free, spaces differ in length or are de-duplicated by text hash: traffic_duplicate_lists_skipped). A list is NON-TRIVIAL when the rules actually lowered differ from the written rules by more than alias renaming (merged rules, removed values, re-sorted values or conditions, expanded geodata); distinct_nontrivial counts the cases on such lists.")
+	r.Rule(fmt.Sprintf("Rule LISTS are all sequences (with repetition) of the stated length over closed rule alphabets built around the optimizers' triggers. "+
+		"Traffic: full alphabet = union of four families (ip/sip: %d rules, domain: %d, port/l4proto/pname/mac/ipversion/dscp: %d, empty-expansion: %d; %d rules) - single-condition rules sharing function, negation and outbound; neighbours differing in exactly one of function name (dip/sip, dip/ip alias), '!', outbound (g1/g2) or outbound parameters (mark, must_, (must)); repeated and overlapping values; alias spellings dip/ip, dport/port, domain bare/domain:/suffix:, contains:/keyword:; same value under two keys; mixed-key domain(); v4/v6 values that re-sort; '&&' rules whose conditions re-sort by name; the same value in two conditions of one rule; must_rules; geoip:/geosite:/geosite@attr/ext: references alone, negated and mixed with ordinary values; references whose expansion is EMPTY (geosite:tiny@nomatch, geoip:empty) alone, negated, as first and as last condition of an '&&' rule. "+
+		"quick: every list of length 1 and 2 over the full alphabet, every list of length 3 over each family core (%d/%d/%d rules), over a %d-rule cross-family alphabet and over the empty-expansion family; thorough: length 1-2 over the full alphabet (IPv4 packets also in IPv4-mapped form), length 3 over each complete family and the cross-family alphabet, length 4 over the cores, the cross-family alphabet and the empty-expansion family. "+
+		"DNS: request alphabet %d rules (qname full/suffix/keyword/regex/geosite/ext, qtype by name and number, negated, multi-key, '&&', empty expansions, one value in two conditions), response alphabet %d rules (ip CIDR sets incl. v6-first, overlaps, geoip/ext, empty geoip; upstream; qname; qtype; '&&'); quick: length 1-2 over the full alphabets, length 3 over the cores (%d/%d); thorough: length 1-3 over the full alphabets, length 4 over the cores; the daedns router sees every request list of length<=3. "+
+		"Inputs: traffic - vroute.PacketsFor on the list as written with geodata references replaced by the listed values (full boundary product for length<=2, compact product = one inside + one outside neighbour per constant for length>=3); DNS request - %d questions (17 names: hits, misses, mixed case, trailing dot, root; qtypes A, AAAA, HTTPS); DNS response - %d inputs (4 questions x every answer section of <=2 records from a pool of 6 addresses x 3 answering upstreams). "+
+		"Meaning of an empty value list: no value matches, so f() never holds and !f() always holds; a list with a rule that holds for every input after expansion may instead be refused with an explicit configuration error (counted in *_lists_rejected_unconditional_after_expansion). "+
+		"A case is (pipeline, list, input); lists are pairwise distinct (alphabets checked duplicate-free, spaces differ in length or are de-duplicated by text hash: traffic_duplicate_lists_skipped). A list is NON-TRIVIAL when the rules actually lowered differ from the written rules by more than alias renaming (merged rules, removed values, re-sorted values or conditions, expanded geodata); distinct_nontrivial counts the cases on such lists.",
+		len(ip), len(dom), len(misc), len(emp), len(all), ipCore, domCore, miscCore, len(mix), len(d.req), len(d.resp), reqCore, respCore, len(d.reqIn), len(d.respIn)))
 	r.Assume("traffic pipeline: the optimizer chain is read from the source of the tree under test (control/control_plane.go, arguments of routing.NewNormalizedProgram) and applied in that order through routing.NewNormalizedProgram -> NewRoutingMatcherBuilderFromProgram -> BuildUserspace -> ControlPlane.Route (real-mode build of package control); NewControlPlane itself is not executed")
 	r.Assume("DNS pipelines go through the real dns.New (RequestSelect/ResponseSelect) and daedns.NewWithOption (selectUpstream); upstreams are IP literals, no network")
 	r.Assume("geodata: geosite.dat/geoip.dat/c04site.dat/c04ip.dat are generated by the harness (protobuf through pkg/geodata types, three entries per file, the wanted one in the middle) into $VERIF_WORKDIR/c04-assets and found through assets.LocationFinder; the meaning of geosite:tiny / geoip:tiny / ext:'file:tiny' is the list of values the harness wrote (RootDomain=suffix, Full=full, Plain=keyword, Regex=regex; @attr filters by attribute, case-insensitively)")
